@@ -30,6 +30,12 @@ def irOp (op : String) (args : List Int) : Option String :=
     match parseIr args with
     | some (c, []) => some (showRes ((validate c).map fun b => b2s b))
     | _ => some "bad-args"
+  | "ir.migrate" =>
+    match parseIr args with
+    | some (c, []) =>
+      some (showRes ((migrateCurve c).map fun c' =>
+        joinInts ([c'.optimal, c'.plateau, c'.maxIr, c'.zeroRate, c'.hundredRate] ++ (c'.points.map fun p => [p.util, p.rate]).flatten ++ [c'.curveType])))
+    | _ => some "bad-args"
   | "ir.accrue" =>
     match parseIr args with
     | some (c, [dt, ta, tl, asv, lsv]) =>
